@@ -88,7 +88,7 @@ pub struct Twin {
 pub fn is_randomized(op: Op) -> bool {
     matches!(
         op,
-        Op::KeyNew | Op::KeyNewViaBls | Op::SplitEntropy | Op::Split | Op::SplitFaultyRng | Op::PokCommitNestedAsRef | Op::PokCommit | Op::ChallengeNew | Op::ChallengeNewViaBls | Op::PokTsGenerate | Op::SignCrypt | Op::TimeLock | Op::EgEncrypt | Op::EgEncryptProof | Op::EgSealRaw | Op::EgEncryptProofBlinder | Op::ScShareOverBase | Op::EnumNew | Op::Exercise
+        Op::KeyNew | Op::KeyNewViaBls | Op::SplitEntropy | Op::Split | Op::SplitFaultyRng | Op::FickleMessage | Op::PokCommitNestedAsRef | Op::PokCommit | Op::ChallengeNew | Op::ChallengeNewViaBls | Op::PokTsGenerate | Op::SignCrypt | Op::TimeLock | Op::EgEncrypt | Op::EgEncryptProof | Op::EgSealRaw | Op::EgEncryptProofBlinder | Op::ScShareOverBase | Op::EnumNew | Op::Exercise
     )
 }
 
@@ -328,6 +328,35 @@ impl Rec {
         let h = crate::seams::splitmix(&mut z);
         if h % 8 != 0 {
             return;
+        }
+        if self.last_agg.is_none() {
+            // no aggregate verified in this run so far: the party makes a small one of its own (three signers, a scheme drawn
+            // from the hash)
+            self.in_aftercare = true;
+            let scheme = [((h >> 20) % 3) as u8];
+            let mut mat: Vec<Vec<u8>> = vec![];
+            let mut sigs: Vec<Vec<u8>> = vec![];
+            for i in 0..3u8 {
+                let sk = crate::exec::call(lib, g, Op::KeyFromHash, &[&[b'u', b'n', b'w', i]], 0, 0).first().map(|b| b.to_vec());
+                let Some(sk) = sk else { break };
+                let pk = crate::exec::call(lib, g, Op::PublicKey, &[&sk], 0, 0).first().map(|b| b.to_vec());
+                let m = vec![b'm', i];
+                let sg = crate::exec::call(lib, g, Op::Sign, &[&sk, &scheme, &m], 0, 0).first().map(|b| b.to_vec());
+                let (Some(pk), Some(sg)) = (pk, sg) else { break };
+                mat.push(pk);
+                mat.push(m);
+                sigs.push(sg);
+            }
+            if sigs.len() == 3 {
+                let refs: Vec<&[u8]> = sigs.iter().map(|b| b.as_slice()).collect();
+                if let Some(agg) = crate::exec::call(lib, g, Op::Aggregate, &refs, 0, 0).first() {
+                    let mut all = vec![agg.to_vec()];
+                    all.extend(mat);
+                    self.last_agg = Some((g, all));
+                }
+            }
+            self.stats.lib_calls += 10;
+            self.in_aftercare = false;
         }
         let Some((pg, pa)) = self.last_agg.clone() else { return };
         let n = (pa.len() - 1) / 2;
